@@ -665,6 +665,15 @@ func (e *Enc) evalCall(n *CallE, env *Env) (TV, error) {
 		}
 		return nil
 	}
+	// built(b) is the content of a strings.Builder / bytes.Buffer: the same ghost as out(w) for the boxed pointer,
+	// so that writes through the io.Writer interface and through the Builder methods are one state
+	if n.Fun == "built" && len(args) == 1 {
+		if g := e.w.cs.Ghosts["out"]; g != nil && args[0].T != nil {
+			k := e.ghostKey(g)
+			return TV{sel(env.getComp(k, false), e.box(args[0], args[0].T)), sString, types.Typ[types.String]}, nil
+		}
+		return TV{}, fmt.Errorf("built() needs a typed pointer")
+	}
 	// ghost state
 	if g := e.w.cs.Ghosts[n.Fun]; g != nil {
 		k := e.ghostKey(g)
